@@ -177,6 +177,11 @@ func UnzipToFolder(zipFile, destDir string) error {
 			continue
 		}
 
+		// the entry must stay inside destDir (names like "../x" must not escape it)
+		if rel, err := filepath.Rel(destDir, filepath.Join(destDir, z.Name)); err != nil || rel == ".." || strings.HasPrefix(rel, ".."+string(filepath.Separator)) {
+			return fmt.Errorf("UnzipToFolder: the entry %q points outside of the destination dir %s: %w", z.Name, destDir, os.ErrInvalid)
+		}
+
 		partPath, _ := filepath.Split(z.Name)
 		destPath := filepath.Join(destDir, partPath)
 		if !pathChecked[destPath] {
